@@ -146,10 +146,12 @@ for _d in (0, 0.5, 2.5, 10):
     S_ATOMS[f"before_delay({_d})"] = ((lambda d=_d: rp.stop_before_delay(d)), (lambda a, e, s, d=_d: e + s >= d))
 S_ATOMS["after_delay(td 3s)"] = (lambda: rp.stop_after_delay(timedelta(seconds=3)), lambda a, e, s: e >= 3.0)
 S_ATOMS["before_delay(td 1500ms)"] = (lambda: rp.stop_before_delay(timedelta(milliseconds=1500)), lambda a, e, s: e + s >= 1.5)
+S_ATOMS["after_delay(td 350ms)"] = (lambda: rp.stop_after_delay(timedelta(milliseconds=350)), lambda a, e, s: e >= 0.35)
+S_ATOMS["before_delay(td 1d+2s)"] = (lambda: rp.stop_before_delay(timedelta(days=1, seconds=2)), lambda a, e, s: e + s >= 86402.0)
 S_ATOMS["plain_callable(a>=4)"] = (lambda: (lambda attempts, elapsed_time, *, upcoming_sleep=0.0: attempts >= 4),
                                    lambda a, e, s: a >= 4)
 
-S_INPUTS = [(a, e, s) for a in range(0, 7) for e in (0.0, 0.49, 0.5, 1.5, 2.5, 3.0, 9.99, 10.0, 1e6)
+S_INPUTS = [(a, e, s) for a in range(0, 7) for e in (0.0, 0.49, 0.5, 1.2, 1.5, 2.5, 3.0, 9.99, 10.0, 1e6)
             for s in (0.0, 0.01, 2.0, 7.5)]
 
 
@@ -221,31 +223,34 @@ def _pow(m: float, b: float, n: int) -> float:
 def w_terms(tier: str) -> list[Any]:
     q = tier == "quick"
     ts: list[Any] = []
-    for w in (0, 0.25, 5, ("td", 2)):
+    # timedelta arguments with whole seconds, a sub-second part and a days part
+    for w in (0, 0.25, 5, ("td", 2), ("td", 0.35), ("td", 1.5), ("td", 86402)):
         ts.append(("fixed", w))
     ts.append(("none",))
     mults = (0.1, 1, 3) if q else (0, 0.1, 0.5, 1, 3, 10)
     bases = (0.5, 1, 2, 10) if q else (0.1, 0.5, 1, 1.5, 2, 3, 10)
     for m in mults:
         for b in bases:
-            for mx, mn in ((60, 0), (60, 2), (0.5, 0), (("td", 30), ("td", 1)), (1e9, 0)):
+            for mx, mn in ((60, 0), (60, 2), (0.5, 0), (("td", 30), ("td", 1)), (("td", 0.5), ("td", 0.25)), (1e9, 0)):
                 ts.append(("exp", m, b, mx, mn))
                 ts.append(("rand_exp", m, b, mx, mn))
                 ts.append(("full_jitter", m, b, mx, mn))
     ts.append(("exp_default",))
     ts.append(("rand_exp_default",))
     ts.append(("exp_jitter_default",))
-    for init in ((1.0, 0.5) if q else (0.0, 0.5, 1.0, 4.0)):
+    for init in ((1.0, 0.5, 1) if q else (0.0, 0.5, 1.0, 4.0, 1, 3)):
         for b in bases:
-            for mx in (60.0, 0.5, 1e9):
-                for j in (0.0, 1.0, 5.0):
-                    ts.append(("exp_jitter", init, float(b), mx, j))
+            # wait_exponential_jitter keeps initial / exp_base as given: int and float spellings are different inputs
+            for bb in ([float(b)] + ([int(b)] if float(b) == int(b) else [])):
+                for mx in (60.0, 0.5, 1e9):
+                    for j in (0.0, 1.0, 5.0):
+                        ts.append(("exp_jitter", init, bb, mx, j))
     for s in (0, 1, 10):
         for i in (0, 1, 100, -2, 0.5):
-            for mx in (float("inf"), 10, 0.5, ("td", 7)):
+            for mx in (float("inf"), 10, 0.5, ("td", 7), ("td", 0.75)):
                 ts.append(("incr", s, i, mx))
     ts.append(("incr_default",))
-    for mn, mx in ((0, 1), (0.5, 1.5), (2, 2), (0, 0), (("td", 1), ("td", 3))):
+    for mn, mx in ((0, 1), (0.5, 1.5), (2, 2), (0, 0), (("td", 1), ("td", 3)), (("td", 0.25), ("td", 0.75))):
         ts.append(("random", mn, mx))
     ts.append(("random_default",))
     leaves = [("fixed", 5), ("fixed", 1), ("exp", 1, 2, 60, 0), ("incr", 1, 2, 10), ("random", 0.5, 1.5),
